@@ -542,3 +542,77 @@ Example ex_search :
   search_model [] 0 false (map compile ex_prog) ex_view = Ok [1; 2]%N /\
   search_model [] 0 true (map compile ex_prog) ex_view = Ok [101; 105]%N.
 Proof. split; vm_compute; reflexivity. Qed.
+
+(* ------------------------------------- SearchKey.requirement is sufficient *)
+Lemma requirement_not_inverse k : requirement (not_inverse k) = requirement k.
+Proof. destruct k; reflexivity. Qed.
+
+Lemma land_lor_zero a b c :
+  N.land (N.lor a b) c = 0%N -> N.land a c = 0%N /\ N.land b c = 0%N.
+Proof. rewrite N.land_lor_distr_l. apply N.lor_eq_0_iff. Qed.
+
+(* a key whose requirement asks for neither HEADER nor BODY builds criteria
+   that never look at the message content *)
+Definition content_free (k : key) : Prop :=
+  forall dis p c, crit_of dis p (compile k) = Ok c ->
+  N.land (requirement (compile k)) REQ_CONTENT = 0%N ->
+  forall m, matches c (strip m) = matches c m.
+
+Lemma crits_content_free ks : Forall content_free ks ->
+  forall dis p cs, crits_of dis p (map compile ks) = Ok cs ->
+  N.land (requirement_of (map compile ks)) REQ_CONTENT = 0%N ->
+  forall m, forallb (fun c => matches c (strip m)) cs = forallb (fun c => matches c m) cs.
+Proof.
+  induction 1 as [|k r Hk _ IH]; intros dis p cs E R m.
+  - injection E as <-. reflexivity.
+  - cbn [map crits_of] in E. destruct (crit_of dis p (compile k)) as [c| | |] eqn:Ek; try discriminate.
+    cbn [bind] in E. destruct (crits_of dis p (map compile r)) as [cs'| | |] eqn:Er; try discriminate.
+    injection E as <-. cbn [map requirement_of fold_right] in R.
+    apply land_lor_zero in R as [R1 R2]. cbn [forallb].
+    rewrite (Hk _ _ _ Ek R1 m), (IH _ _ _ Er R2 m). reflexivity.
+Qed.
+
+Theorem requirement_sufficient : forall k, content_free k.
+Proof.
+  apply key_ind'.
+  - intros k A dis p c E R m.
+    destruct k; try destruct A; cbn [compile crit_of] in E;
+      destruct (mem_name _ dis); try discriminate E;
+      try (destruct f); try (destruct h);
+      cbn in E; cbn in R; try discriminate R;
+      try (injection E as <-; reflexivity).
+  - intros k IH dis p c' E R m. cbn [compile] in E, R. rewrite requirement_not_inverse in R.
+    destruct (crit_of_not_inverse _ _ _ _ E) as (c & Ec & M).
+    rewrite not_inverse_invol in Ec.
+    assert (G : forall x, matches c' x = negb (matches c x)).
+    { intros x. rewrite (M x), negb_involutive. reflexivity. }
+    rewrite !G, (IH _ _ _ Ec R m). reflexivity.
+  - intros a b IHa IHb dis p c E R m. cbn [compile crit_of] in E.
+    destruct (mem_name NOR dis); [discriminate|].
+    destruct (crit_of dis p (compile a)) as [ca| | |] eqn:Ea; try discriminate.
+    destruct (crit_of dis p (compile b)) as [cb| | |] eqn:Eb; try discriminate.
+    cbn in E. injection E as <-. cbn [compile requirement] in R.
+    apply land_lor_zero in R as [Ra Rb]. cbn [matches].
+    rewrite (IHa _ _ _ Ea Ra m), (IHb _ _ _ Eb Rb m). reflexivity.
+  - intros ks IH dis p c E R m. cbn [compile] in E. rewrite crit_of_set in E.
+    destruct (mem_name NKEYSET dis); [discriminate|].
+    destruct (crits_of dis p (map compile ks)) as [cs| | |] eqn:Es; try discriminate.
+    cbn in E. injection E as <-. cbn [matches].
+    apply (crits_content_free ks IH _ _ _ Es R m).
+Qed.
+
+(* whether the backend loads the content always (dict) or only when the
+   reduced requirement asks for it (maildir) does not change the result *)
+Theorem search_backend_irrelevant always dis choice uid prog v :
+  search_backend always dis choice uid (map compile prog) v =
+  search_model dis choice uid (map compile prog) v.
+Proof.
+  unfold search_backend, search_model, search_crits.
+  destruct (content_loaded always (requirement_of (map compile prog))) eqn:L; [reflexivity|].
+  destruct (crits_of dis (params_of v) (map compile prog)) as [cs| | |] eqn:E; try reflexivity.
+  cbn [bind]. do 2 f_equal. apply filter_ext. intros m.
+  unfold content_loaded in L. apply orb_false_iff in L as [_ L].
+  apply negb_false_iff, N.eqb_eq in L.
+  assert (HF : Forall content_free prog) by (apply Forall_forall; intros k _; apply requirement_sufficient).
+  apply (crits_content_free prog HF _ _ _ E L m).
+Qed.
